@@ -80,6 +80,7 @@ pub enum DiagnosticInfoMessage {
     IndexSignatureNonSerializable,
     MultipleIndexSignaturesNotSupported,
     AnyhowError(String),
+    TypeInstantiationTooDeep,
     CannotResolveKey(String),
     CannotNotFindSomethingOfOtherFile(String),
     EnumMemberNoInit,
@@ -304,6 +305,9 @@ impl DiagnosticInfoMessage {
             }
             DiagnosticInfoMessage::AnyhowError(err) => {
                 format!("Internal Error: {err}")
+            }
+            DiagnosticInfoMessage::TypeInstantiationTooDeep => {
+                "Type instantiation is excessively deep and possibly infinite".to_string()
             }
             DiagnosticInfoMessage::IndexSignatureNonSerializable => {
                 "Index signature cannot be extracted - Use Record<x,y>".to_string()
